@@ -392,16 +392,25 @@ func reifyValue(
 	t reflect.Type,
 	val value,
 ) (reflect.Value, Error) {
-	if t.Kind() == reflect.Interface && t.NumMethod() == 0 {
+	baseType := chaseTypePointers(t)
+	if baseType.Kind() == reflect.Interface && baseType.NumMethod() == 0 {
 		reified, err := val.reify(opts.opts)
 		if err != nil {
 			ctx := val.Context()
 			return reflect.Value{}, raisePathErr(err, val.meta(), "", ctx.path("."))
 		}
-		return reflect.ValueOf(reified), nil
+		if t == baseType {
+			return reflect.ValueOf(reified), nil
+		}
+
+		// pointer to interface{}
+		v := reflect.New(baseType).Elem()
+		if reified != nil {
+			v.Set(reflect.ValueOf(reified))
+		}
+		return pointerize(t, baseType, v), nil
 	}
 
-	baseType := chaseTypePointers(t)
 	if tConfig.ConvertibleTo(baseType) {
 		cfg, err := val.toConfig(opts.opts)
 		if err != nil {
@@ -474,6 +483,10 @@ func reifyMergeValue(
 	}
 
 	baseType := chaseTypePointers(old.Type())
+	if baseType.Kind() == reflect.Interface && baseType.NumMethod() == 0 {
+		// pointer to interface{}: the generic value replaces the old one
+		return reifyValue(opts, t, val)
+	}
 
 	if tConfig.ConvertibleTo(baseType) {
 		sub, err := val.toConfig(opts.opts)
